@@ -199,7 +199,7 @@ def checkCaseRouter (c : Case) : CaseResult :=
       | .error e => a.fail (.diverge s!"unparsable op line: {e}")
       | .ok [] => { a with nops := a.nops + 1 }
       | .ok ops =>
-        let a := { a with stats := bumpStats a.stats ("call." ++ (if rest[0]! == "api" then "api." ++ (rest[3]?.getD (rest[2]?.getD "?")) else rest[0]!)) 1 }
+        let a := { a with stats := bumpStats a.stats ("call." ++ (if rest[0]! == "api" then "api." ++ (if rest[1]? == some "router" then rest[2]?.getD "?" else rest[3]?.getD "?") else rest[0]!)) 1 }
         let a := if ops == [.deleteRouter] then
             { a with queuedAtDestroy := !a.s.actions.isEmpty,
                      stats := bumpStats a.stats "clusters_alive_at_destroy" (a.s.clusters.length) } else a
